@@ -72,8 +72,12 @@ def untyped(name, children=None, cid=None, sc=None):
     return n
 
 
-def kids_shapes():
+def kids_shapes(op=None):
     yield "k2", lambda: [untyped(Name("x1"), cid="x1"), untyped(Name("x2"), cid="x2")]
+    # a child that is itself an operator node with the SAME name stays ONE child (operators are not flattened:
+    # $and_any_order[a, $and_any_order[b, c]] keeps b and c adjacent)
+    yield "nested", lambda: [untyped(Name("x1"), cid="x1"),
+                             untyped(op or "$and_any_order", [untyped(Name("y1"), cid="y1"), untyped(Name("y2"), cid="y2")], cid="x2")]
     yield "seq", lambda: SymSeq("children", untyped(Name("xg"), cid="xg"), min_len=1)
     yield "empty", lambda: []
     yield "none", lambda: None
@@ -111,14 +115,14 @@ def _check_children(res, kshape, expect_builder, expect_ctx, log: BuildLog):
 def _operator_typing():
     for cname in ("none", "MNEMONIC", "DEREF"):
         for op, cls in list(OPERATORS.items()):
-            for kshape in ("k2", "seq", "empty", "none"):
+            for kshape in ("k2", "nested", "seq", "empty", "none"):
                 sid = f"typing:{op}:{cname}:{kshape}"
 
                 def run(cname=cname, op=op, cls=cls, kshape=kshape, sid=sid):
                     ensure()
                     levels: Dict[str, str] = {}
                     log = BuildLog()
-                    mk = dict(kids_shapes())[kshape]
+                    mk = dict(kids_shapes(op))[kshape]
 
                     def fn():
                         log.calls.clear()
